@@ -247,8 +247,30 @@ pub fn project(raw: &[u8], mode: &str) -> Value {
     if mode == "full" || mode == "head" {
         r["sl"] = ints(sl);
     }
+    // a body of more than 1 MiB travels as a SAMPLE (offsets and the bytes found there): the first and last 64 bytes, every
+    // 65 537th byte and the bytes around every multiple of 1 MiB.  Mechanical; Static judges the sample against the file model.
+    let big = body.len() > (1 << 20);
+    r["big"] = json!(big);
+    let mut pos: Vec<usize> = vec![];
+    if big {
+        let n = body.len();
+        pos.extend(0..64);
+        pos.extend(n - 64..n);
+        pos.extend((0..n).step_by(65537));
+        for m in 1..=(n >> 20) {
+            for d in [-2i64, -1, 0, 1] {
+                let p = (m << 20) as i64 + d;
+                if p >= 0 && (p as usize) < n {
+                    pos.push(p as usize);
+                }
+            }
+        }
+        pos.sort();
+        pos.dedup();
+    }
+    r["sample"] = json!({"pos": pos, "val": pos.iter().map(|p| body[*p] as u64).collect::<Vec<u64>>()});
     if mode == "full" {
-        r["body"] = ints(body);
+        r["body"] = if big { json!([]) } else { ints(body) };
     }
     // ndelims: how many lines of the body consist of "--" + the boundary parameter of Content-Type (0 without one).  A mechanical
     // count, used by Static!C03Violations for range lists too long for the part-by-part judgement.
